@@ -1,6 +1,103 @@
-(* C05 - TWCC feedback reports exactly what was received, in valid wire form. *)
-From IV Require Import Base.Word Model.TwccChunk Proofs.TwccChunkProofs.
+(* C05 - TWCC feedback reports exactly what was received, in valid wire form.
+   Statements only; proofs are in Proofs/TwccChunkProofs.v and
+   Proofs/TwccFeedbackProofs.v.
 
-Theorem C05_inc16 : forall x, inc16 x = add16 x 1.
-Proof. exact inc16_add16. Qed.
-Print Assumptions C05_inc16.
+   What is proved here (for every symbol list / every sequence of addReceived
+   calls, no bound): the chunk packer round trip, the per-packet wire-form
+   accounting (status count, one delta per received status with the right
+   type, representable deltas, marshalled length = header Length = content
+   rounded to 32 bits, padding bit), the 125 us bound on every decoded time,
+   that the first addReceived of a packet cannot fail, and that feedback
+   counters are consecutive over every Record/Build history.
+
+   What is NOT proved (validated by the correspondence + specification oracle
+   only, see design-notes/C05.md): the recorder-level composite C05_build
+   (which numbers a build covers, "every retained arrival not yet reported is
+   reported", received iff retained, consecutive ranges of one build) and
+   the refinement of the circular arrival buffer to the abstract map. *)
+From IV Require Import Base.Word Model.TwccChunk Model.TwccRecorder Proofs.TwccChunkProofs Proofs.TwccFeedbackProofs
+  Proofs.TwccRecorderProofs.
+
+(* chunk_roundtrip: feeding ANY list of status symbols (0 not received, 1 small
+   delta, 2 large delta) through canAdd/encode/add and draining it as getRTCP
+   does yields chunks that expand (run length x symbol, 14 one-bit, 7 two-bit
+   symbols) to exactly that list followed by fewer than 7 zero symbols *)
+Theorem C05_chunk_roundtrip : forall syms, syms_ok syms ->
+  exists k, (k < 7)%nat /\ pexpand_all (pack_all syms) = syms ++ repeat 0 k.
+Proof. exact chunk_roundtrip. Qed.
+Print Assumptions C05_chunk_roundtrip.
+
+(* ... and the same on the wire: every emitted chunk fits its wire fields (run
+   length <= 8191, one-bit vectors hold only 0/1, symbols 0..2), so what a
+   receiver expands from the marshalled chunks is the list plus < 7 zeros *)
+Theorem C05_chunk_roundtrip_wire : forall syms, syms_ok syms ->
+  Forall pchunk_valid (pack_all syms) /\
+  exists k, (k < 7)%nat /\ statuses_wire (map wire_chunk (pack_all syms)) = syms ++ repeat 0 k.
+Proof. exact chunk_roundtrip_wire. Qed.
+Print Assumptions C05_chunk_roundtrip_wire.
+
+(* rounding to 250 us ticks (half away from zero, Go's truncating division)
+   is within 125 us for every delta, negative ones included *)
+Theorem C05_round_within_125us : forall d, Z.abs (d - round250 d * 250) <= 125.
+Proof. exact round250_within. Qed.
+Print Assumptions C05_round_within_125us.
+
+(* a successful addReceived keeps the feedback invariant (the packet stands for
+   the previous statuses, then not-received for the gap, then this packet's
+   symbol) and leaves the running time within 125 us of the arrival time *)
+Theorem C05_add_received : forall f syms seq16 t f',
+  fb_inv f syms -> fb_add_received f seq16 t = Some f' ->
+  fb_inv f' (syms ++ add_syms f seq16 t) /\
+  Z.abs (t - f_last f') <= 125 /\ f_base f' = f_base f /\ f_ref f' = f_ref f.
+Proof. exact fb_add_inv. Qed.
+Print Assumptions C05_add_received.
+
+(* time_within_125us: the time a receiver decodes for the packet just added
+   (reference time * 64 ms + all deltas so far) is within 125 us of its arrival *)
+Theorem C05_time_within_125us : forall f syms seq16 t f',
+  fb_inv f syms -> fb_add_received f seq16 t = Some f' ->
+  Z.abs (t - (f_ref f' * 64000 + sumZ (map snd (f_deltas f')))) <= 125.
+Proof. exact add_received_time. Qed.
+Print Assumptions C05_time_within_125us.
+
+(* the first addReceived after setBase cannot fail (arrival time >= 0), so
+   fbPktCnt never skips a value *)
+Theorem C05_first_add_succeeds : forall b seq16 t, 0 <= t ->
+  fb_add_received (fb_new b t) seq16 t <> None.
+Proof. exact first_add_succeeds. Qed.
+Print Assumptions C05_first_add_succeeds.
+
+(* per-packet wire form, for every feedback reachable by setBase + addReceived:
+   statuses = one per number from base (count of them) + < 7 padding zeros,
+   one delta per received status of the type the status names, deltas fit
+   their wire size, marshalled length = content rounded up to 32 bits =
+   4 * (header Length + 1), padding bit set iff content is not a multiple of 4.
+   Scope: fewer than 2^16 statuses, marshalled size < 2^18 (pion/rtcp itself
+   computes sizes in uint16). *)
+Theorem C05_packet_wire_form : forall sender media fbc f syms,
+  fb_inv f syms -> Z.of_nat (length syms) < 65536 ->
+  let p := fb_get_rtcp sender media fbc f in
+  (exists k, (k < 7)%nat /\ statuses_wire (p_chunks p) = syms ++ repeat 0 k) /\
+  p_count p = Z.of_nat (length syms) /\
+  map fst (p_deltas p) = filter nonzero syms /\
+  Forall delta_valid (p_deltas p) /\
+  p_base p = f_base f /\ p_fb p = fbc /\
+  (let content := 20 + 2 * Z.of_nat (length (p_chunks p)) + sumZ (map dsize (p_deltas p)) in
+   p_mlen p = (content + 3) / 4 * 4 /\
+   (p_mlen p < 262144 -> p_mlen p = 4 * (p_hlen p + 1)) /\
+   (p_pad p = if content mod 4 =? 0 then 0 else 1)).
+Proof. exact fb_packet_ok. Qed.
+Print Assumptions C05_packet_wire_form.
+
+(* fbcount_step: over EVERY Record/Build history the packets of all builds,
+   in order, carry consecutive feedback packet counters modulo 256 (starting
+   at the recorder's counter, 0 for a new recorder) *)
+Theorem C05_fbcount_step : forall sender ops,
+  fb_chain 0 (concat (rec_run sender rec_init ops)).
+Proof. intros sender ops. apply (run_counter sender ops rec_init). cbn. lia. Qed.
+Print Assumptions C05_fbcount_step.
+
+(* non-vacuity: the invariant holds initially and a successful add exists *)
+Example C05_inv_nonvacuous : fb_inv (fb_new 5 1000) [] /\ exists f', fb_add_received (fb_new 5 1000) 7 1300 = Some f'.
+Proof. split; [apply fb_new_inv; lia|]. eexists. vm_compute. reflexivity. Qed.
+Print Assumptions C05_inv_nonvacuous.
